@@ -36,6 +36,8 @@ def plan(tier, seed):
     k = 4000 if tier == "quick" else 180000
     specs = [{"kind": "random", "start": p * (n // NSHARDS), "count": n // NSHARDS} for p in range(NSHARDS)]
     specs += [{"kind": "superpose", "start": p * (k // NSHARDS), "count": k // NSHARDS} for p in range(NSHARDS)]
+    big = 1 if tier == "quick" else 30
+    specs += [{"kind": "large", "start": p * big, "count": big} for p in range(4 if tier == "quick" else 16)]
     return specs
 
 
@@ -57,7 +59,9 @@ def amplification(case, fi, ri, yvals, yrvals):
 def run_random_case(ctx, kind, idx):
     from traffic_weaver.match import integral_matching_reference_stretch
     rng = ctx.rng(kind, idx)
-    case = M.gen_case(rng, max_m=400, weaver=bool(rng.integers(0, 9) == 0))
+    case = M.gen_case(rng, max_m=400, weaver=bool(rng.integers(0, 9) == 0), large=kind == "large")
+    if kind == "large":
+        ctx.count("large:len(x)*len(x_ref)>2**20" if len(case["x"]) * len(case["x_ref"]) > 2 ** 20 else "large:below_2**20")
     if case["alpha"] == 1.0 and rng.integers(0, 10) < 6:
         case["alpha"] = float(rng.choice([0.25, 0.5, 2.0, 3.7, float(rng.uniform(0.1, 6.0))]))
     cid = ctx.case_id(kind, idx)
@@ -170,10 +174,10 @@ def run_superpose_case(ctx, kind, idx):
 
 
 def run(ctx, spec):
-    f = run_random_case if spec["kind"] == "random" else run_superpose_case
+    f = run_superpose_case if spec["kind"] == "superpose" else run_random_case
     for idx in range(spec["start"], spec["start"] + spec["count"]):
         f(ctx, spec["kind"], idx)
 
 
 def replay(ctx, case):
-    (run_random_case if case["kind"] == "random" else run_superpose_case)(ctx, case["kind"], case["idx"])
+    (run_superpose_case if case["kind"] == "superpose" else run_random_case)(ctx, case["kind"], case["idx"])
